@@ -7,10 +7,18 @@ import (
 
 func main() {
 	if len(os.Args) < 2 {
-		fmt.Fprintln(os.Stderr, "usage: harness drive|worker|replay|gentest ...")
+		fmt.Fprintln(os.Stderr, "usage: harness drive|worker|oneshot|replay|gentest|build ...")
 		os.Exit(2)
 	}
 	switch os.Args[1] {
+	case "drive":
+		driveMain()
+	case "worker":
+		workerMain()
+	case "oneshot":
+		oneshotMain()
+	case "replay":
+		replayMain()
 	case "build":
 		o := BuildPath(os.Args[2])
 		fmt.Println(o.Text(), o.PanicAt)
